@@ -457,8 +457,10 @@ func (db *DB) delete(o Object) (err error) {
 	// unindexing object
 	s.unindex(o)
 	path = filepath.Join(db.oDir(o), s.filename(o))
-	if isFileAndExist(path) {
-		return os.Remove(path)
+	// a file which does not exist is not an error, any other failure
+	// must be reported: the object would still be on disk
+	if err = os.Remove(path); os.IsNotExist(err) {
+		err = nil
 	}
 	return
 }
